@@ -37,7 +37,8 @@ RULE = ("holders of 1-25 samples (thorough: up to 40) of both shipped sample typ
         "order on the same files, real evaluate_model.main(); arrays in C / Fortran / strided / read-only layout; the saved holder is "
         "compared with its pre-save snapshot; in-memory concat incl. incomplete holders, expectation from a snapshot taken before the "
         "call; reuse sequences concat([A,B,..]) -> concat([A,C]) -> A.combine(B) -> add_theta on results and on A (operands and earlier "
-        "results must be unchanged, A must still refuse growth / out-of-range access); refusals. Non-trivial: >= 11 samples in one file (so that '10' < '2' alphabetically matters) or >= 2 chains of "
+        "results must be unchanged, A must still refuse growth / out-of-range access); refusals; saved files edited with h5py (declared size "
+        "below the number of groups, non-numeric group name, missing / unexpected parameter, missing shared parameter) loaded by code and model. Non-trivial: >= 11 samples in one file (so that '10' < '2' alphabetically matters) or >= 2 chains of "
         "unequal length.")
 
 SPECIAL64 = [0x0000000000000000, 0x8000000000000000, 0x0000000000000001, 0x800fffffffffffff, 0x000fffffffffffff,
@@ -354,6 +355,56 @@ def run_roundtrip(case, tmp, res, queue, rng, check_model=True):
         queue("load-shuffled", case, " ".join(["c10.load"] + head + sh), got)
 
 
+def run_tamper(case, tmp, res, queue):
+    """a file written by the real save_h5 is edited with h5py, then loaded by the real load_h5 and by the model: ties the refusing /
+    error branches of the model's `load` (too many groups for the declared size, non-numeric group name, missing / unexpected
+    parameter, missing shared parameter).  Oracle: a file declaring fewer samples than it holds groups must be refused (ValueError)."""
+    import h5py
+    from batchie.core import ThetaHolder
+    h = build_holder(case)
+    fn = os.path.join(tmp, "tp.h5")
+    h.save_h5(fn)
+    n = len(case["thetas"])
+    kind = case["tamper"]
+    with h5py.File(fn, "r+") as f:
+        if kind == "shrink":
+            f.attrs["n_thetas"] = case["arg"] % n                # 0 .. n-1 < number of groups
+        elif kind == "badkey":
+            f["private_params"].move(str(case["arg"] % n), "x%d" % (case["arg"] % n))
+        elif kind == "missing":
+            del f["private_params/%d/W" % (case["arg"] % n)]
+        elif kind == "extra":
+            f["private_params/%d" % (case["arg"] % n)].attrs["zzz"] = 1.5
+        elif kind == "noshared":
+            del f["shared_params/single_effect_lookup_keys1"]
+    head, groups = read_raw(fn)
+    try:
+        with quiet():
+            back = ThetaHolder.load_h5(fn)
+        got = show_holder(back)
+    except Exception as e:
+        got = err_tok(e)
+    if kind == "shrink" and got != "err:ValueError":
+        res.fail("load_h5 accepts a file that holds more samples than its declared size (the collection grew beyond n_thetas)", case,
+                 got[:200], "ValueError", signature="C10:refusal")
+    queue("load-tampered-" + kind, case, " ".join(["c10.load"] + head + groups), got)
+
+
+def run_zerodim(case, tmp, res, queue):
+    """a 0-d numpy array among the parameters: h5py refuses to store it compressed (the model's `dictStorable` branch; the hypothesis
+    `Saveable.storable` of C10_load_save)"""
+    h = build_holder(case)
+    j, f = case["arg"] % len(h.thetas), case["field"]
+    setattr(h.thetas[j], f, np.array(getattr(h.thetas[j], f)).reshape(-1)[:1].reshape(()) if np.size(getattr(h.thetas[j], f)) else np.array(0.0))
+    samples = show_holder(h).split(" ")[2:]
+    try:
+        h.save_h5(os.path.join(tmp, "zd.h5"))
+        impl = "ok"
+    except Exception as e:
+        impl = err_tok(e)
+    queue("save-zerodim", case, " ".join(["c10.save", str(case["size"])] + samples), impl, prefix=True)
+
+
 def run_predict(case, tmp, res):
     """predictions of every sample before and after the round trip, bytewise"""
     from batchie.core import ThetaHolder
@@ -664,6 +715,10 @@ def run_case(case, tmp, res, queue, rng):
         run_roundtrip(case, tmp, res, queue, rng)
     elif k == "predict":
         run_predict(case, tmp, res)
+    elif k == "tamper":
+        run_tamper(case, tmp, res, queue)
+    elif k == "zerodim":
+        run_zerodim(case, tmp, res, queue)
     elif k == "evaluate":
         return run_evaluate(case, tmp, res, queue)
     elif k == "concat":
@@ -681,10 +736,10 @@ def run(ctx, res):
     tmp = tempfile.mkdtemp(prefix="verif_c10_")
     lines, expect, meta = [], [], []
 
-    def queue(where, case, line, impl, canon=False):
+    def queue(where, case, line, impl, canon=False, prefix=False):
         lines.append(line)
         expect.append(impl)
-        meta.append((where, case, canon))
+        meta.append((where, case, "prefix" if prefix else canon))
 
     n_max = 25 if ctx.tier == "quick" else 40
     try:
@@ -704,6 +759,22 @@ def run(ctx, res):
             run_case(case, tmp, res, queue, rng)
             if t < 2:
                 res.sample({"kind": "roundtrip", "cls": case["cls"], "n": n, "size": case["size"], "first_theta": case["thetas"][0]})
+        # 1b. tampered files: the refusing branches of load
+        for t in range(ctx.scale(40, 400, 200)):
+            case = gen_roundtrip_case(rng, 14)
+            case["kind"] = "tamper"
+            case["size"] = len(case["thetas"])
+            case["tamper"] = rng.choice(["shrink", "shrink", "badkey", "missing", "extra"] + (["noshared"] if case["cls"] == "I" else []))
+            case["arg"] = rng.randrange(1000)
+            res.evaluations += 1
+            res.count("tamper." + case["tamper"])
+            run_case(case, tmp, res, queue, rng)
+        for t in range(ctx.scale(10, 60, 30)):
+            case = gen_roundtrip_case(rng, 12)
+            case.update(kind="zerodim", arg=rng.randrange(1000), field=rng.choice(["W", "V2"]))
+            res.evaluations += 1
+            res.count("zerodim")
+            run_case(case, tmp, res, queue, rng)
         # 2. predictions before / after reload
         for t in range(ctx.scale(40, 400, 200)):
             cls = rng.choice(["C", "I"])
@@ -792,7 +863,9 @@ def run(ctx, res):
         if ctx.driver is not None:
             got = ctx.driver.ask(lines)
             for l, e, g, (where, case, canon) in zip(lines, expect, got, meta):
-                if canon:
+                if canon == "prefix":
+                    g = g.split(" ")[0]              # only ok / err:<Class> is compared
+                elif canon:
                     g = canon_file_line(g)
                 if e != g:
                     res.disagree("C10:" + where, case if len(l) < 4000 else {"kind": case.get("kind"), "line_head": l[:500]}, e[:600], g[:600])
